@@ -88,30 +88,32 @@ def sameSet (a b : List Nat) : Bool := a.all (b.contains ·) && b.all (a.contain
 
 /-! ### glue steps (`Model/LockGlue.lean`) -/
 
-/-- n × (sig, ctl, dat, sigSum, ctlSum, datSum, q1) -/
-def readSections : Nat → Nat → List String → Option (List (PkgRef × Sections) × List String)
+/-- n × (sig, ctl, dat, sigSum, ctlSum, datSum, q1, cachedSig, cachedSigSum): the file at the URL now, and the signature
+section of the file the package cache was filled from (the same, unless the package was re-signed in between) -/
+def readSections : Nat → Nat → List String → Option (List (PkgRef × Sections × Sections) × List String)
   | 0, _, rest => some ([], rest)
-  | n + 1, i, sig :: ctl :: dat :: ss :: cs :: ds :: q1 :: rest =>
+  | n + 1, i, sig :: ctl :: dat :: ss :: cs :: ds :: q1 :: osig :: oss :: rest =>
     let url : Text := (toString i).toList
     let s : Sections := { sig := sig.toNat!, ctl := ctl.toNat!, dat := dat.toNat!, sigSum := str ss, ctlSum := str cs,
                           datSum := str ds, q1 := str q1, name := url, version := [], arch := [] }
     let p : PkgRef := { name := url, version := [], arch := [], url := url, checksum := str q1 }
-    (readSections n (i + 1) rest).map fun (l, r) => ((p, s) :: l, r)
+    let old : Sections := { s with sig := osig.toNat!, sigSum := str oss }
+    (readSections n (i + 1) rest).map fun (l, r) => ((p, s, old) :: l, r)
   | _, _, _ => none
 
 def showEntry (e : LockEntry) : String :=
   ",".intercalate ([e.sigRange, e.sigSum, e.ctlRange, e.ctlSum, e.datRange, e.datSum, e.checksum].map enc)
 
 /-- the state a run of the given kind finds, for files `fs` -/
-def stateOf (kind : String) (fs : List (PkgRef × Sections)) : Opts × LockGlue.St :=
-  let disk := fs.map fun (p, s) => (p.url, LockGlue.diskEntryOf s)
-  let memo := fs.map fun (p, s) => (p.url, p.checksum, LockGlue.expandFresh s)
+def stateOf (kind : String) (fs : List (PkgRef × Sections × Sections)) : Opts × LockGlue.St :=
+  let disk := fs.map fun (p, _, old) => (p.url, LockGlue.diskEntryOf old)
+  let memo := fs.map fun (p, s, _) => (p.url, p.checksum, LockGlue.expandFresh s)
   let o (c : CacheMode) (ign : Bool) : Opts := ⟨c, ign, false⟩
   match kind with
   | "off" => (o .off false, LockGlue.St.empty)
   | "cold" => (o .on false, LockGlue.St.empty)
   | "warm" => (o .on false, ⟨disk, memo⟩)
-  | _ => (o .on false, ⟨disk, []⟩)          -- "fresh": another process filled the disk cache
+  | _ => (o .on false, ⟨disk, []⟩)          -- "fresh" / "stale": another process filled the disk cache
 
 def entryOfText (arch : Text) (t : Text) (intact : Bool) : LockEntry × Option Sections :=
   let f := splitOnChar ' ' t
@@ -149,13 +151,15 @@ def glueHandle (args : List String) : Option String :=
     | some (fs, [go]) =>
       let (o, st) := stateOf kind fs
       let o := { o with ignoreSignatures := ign == "1" }
-      let repo : LockGlue.Repo := fun u => (fs.find? (·.1.url = u)).map (·.2)
+      let repo : LockGlue.Repo := fun u => (fs.find? (·.1.url = u)).map (·.2.1)
       let impl := match LockGlue.lockFile o st repo [fs.map (·.1)] with
         | none => "err"
         | some l => ";".intercalate (l.map showEntry)
-      let spec := ";".intercalate (fs.map fun (p, s) => showEntry (LockGlue.specEntry p s))
+      let spec := ";".intercalate (fs.map fun (p, s, _) => showEntry (LockGlue.specEntry p s))
+      -- F09k: the package cache holds a package whose signature section is not the one of the file at the URL
+      let cls := if LockGlue.staleSignature o st repo (fs.map (·.1)) then "F09k" else "unlisted"
       if go = spec then some (impl ++ "\tpass\t-")
-      else some (impl ++ "\tfail:the recorded ranges/checksums are not those of the files at the recorded URLs\tunlisted")
+      else some (impl ++ "\tfail:the recorded ranges/checksums are not those of the files at the recorded URLs\t" ++ cls)
     | _ => some "bad-input\tfail:bad-input\tunlisted"
   | "l.lockbuild" :: narch :: rest =>
     match readLocked narch.toNat! rest with
